@@ -1,7 +1,7 @@
 (* C06 -- Equipment changes need the GCA's signature; a conflict bans exactly one id.
    Statements only; proofs in ServerAuth_lemmas.v. *)
 From Coq Require Import ZArith List Bool.
-From GCA Require Import Wrap Bytes Codec Amap Timeslot Server ServerInv ServerReach_lemmas ServerAuth_lemmas.
+From GCA Require Import Wrap Bytes Codec Amap Timeslot Server ServerInv ServerDisk ServerReach_lemmas ServerAuth_lemmas ServerFull_lemmas.
 Import ListNotations.
 Open Scope Z_scope.
 
@@ -40,9 +40,10 @@ Section C06.
     gca (mm st') = gca (mm st) /\ d_reports (dd st') = d_reports (dd st) /\ d_stats (dd st') = d_stats (dd st).
   Proof. exact (conflict_bans_one verify st a cur). Qed.
 
-  Theorem c06_ban_permanent ops st id : no_restart ops ->
-    zin id (bans (mm st)) = true -> zin id (bans (mm (run verify sign stats_sb st ops))) = true.
-  Proof. exact (ban_permanent verify sign stats_sb ops st id). Qed.
+  (* permanent: also after restart *)
+  Theorem c06_ban_permanent ops st id : Inv verify st -> Forall op_ok ops ->
+    zin id (bans (mm st)) = true -> zin id (bans (mm (Server.run verify sign stats_sb st ops))) = true.
+  Proof. exact (ban_permanent_full verify sign stats_sb ops st id). Qed.
 
   Theorem c06_banned_bounces st id a now d r :
     MemInv (mm st) -> zin id (bans (mm st)) = true ->
